@@ -1,96 +1,44 @@
-(** C05 — File lifecycle.  Statements only; proofs are in Refs/RefProofs.v and
-    Refs/FenceProofs.v.  All theorems hold for EVERY backend [bstep] (every
-    success/failure choice of every backend call) and every state.
+(** C05 — File lifecycle.  Statements only; proofs are in Refs/RefProofs.v,
+    Refs/RefStep.v, Refs/LifeProofs.v and Refs/FenceProofs.v.  All theorems hold for
+    EVERY backend [bstep] (every success/failure choice of every backend call).
 
-    Proved: the reference-count invariant [RefInv]
-        refs r = #fid-table entries -> r + #transient holders of r
-                 + #live fidRefs whose parent is r + #live xattr fidRefs borrowing r
-    (with every counted reference pointing at an existing fidRef and the fid
-    table having one entry per key) is established by the initial state and
-    preserved by every reference-count primitive of the server: LookupFID's
-    IncRef, the deferred DecRef WITH ITS WHOLE CASCADE (xattrOf, parent,
-    removeChild, Close), InsertFID over a bound fid, DeleteFID, new fidRefs
-    (clone / Tlcreate / Txattrwalk taking a reference on the parent or origin,
-    doWalk's hand-over of the walk reference), renameChildTo's re-parenting; and
-    by the complete handlers of Tgetattr, Tstatfs, Tlock, Tread, Twrite, Tfsync,
-    Tsetattr, Treaddir, Treadlink, Tmkdir/Tmknod/Tsymlink, Tlopen, Txattrcreate,
-    Tclunk and the disconnect (connState.stop).
-    PARTIAL (named so below): the composition of the proved primitives through
-    the control flow of Tattach, Twalk(getattr), Tlcreate, Tremove, Tlink,
-    Tunlinkat, Trename, Trenameat, Txattrwalk - hence the induction over whole
-    histories - is not closed; C05_closed_once / C05_no_use_after_close /
-    C05_disconnect are therefore NOT derived in Coq: they are evaluated on the
-    observed backend call log of the real server on every run
-    (Refs/Cases.v: lifecycle_ok, all_closed_once) and the model is compared
-    with the real server step by step.  Out-of-fuel outcomes of the cascade are
-    excluded by hypothesis ([s_oof = false]); the lemma that the fuel suffices
-    (parent chains are acyclic, assumption B2) is not proved. *)
+    [RefInv]:  refs r = #fid-table entries -> r + #transient holders of r
+                        + #live fidRefs whose parent is r + #live xattr fidRefs borrowing r,
+    every counted reference points at an existing fidRef, one table entry per key. *)
 From Coq Require Import List Arith Bool ZArith.
-From P9V Require Import Refs.Model Refs.PathFS Refs.Cases Refs.RefProofs Refs.FenceProofs.
+From P9V Require Import Refs.Model Refs.PathFS Refs.Cases Refs.RefProofs Refs.RefStep Refs.FenceProofs.
 Import ListNotations.
 
-Theorem C05_inv_init : forall B (b : B), RefInv B (init_state B b).
-Proof. exact init_inv. Qed.
-Print Assumptions C05_inv_init.
+(** C05_inv: for every history of requests from the initial state and every backend, the reference-count
+    invariant holds and, unless a run-time panic was flagged, no transient reference is left over. *)
+Theorem C05_inv : forall B bstep ops (b : B),
+  let s := snd (run B bstep ops (init_state B b)) in
+  RefInv B s /\ (s_panic B s = false -> s_held B s = []).
+Proof. exact history_inv. Qed.
+Print Assumptions C05_inv.
 
-(** DecRef with its cascade pays exactly one owed reference [r] ([d]: further owed references) *)
-Theorem C05_inv_decref_cascade : forall B bstep fuel r s d,
-  RefInvD B s (r :: d) -> s_oof B (snd (decref B bstep fuel r s)) = false ->
-  RefInvD B (snd (decref B bstep fuel r s)) d.
-Proof. exact decref_inv. Qed.
-Print Assumptions C05_inv_decref_cascade.
+(** ... preserved by every single request from any state satisfying it (all 20 request kinds, incl.
+    n-component walks failing at any component, clone, fid replacement, create-rebinding, xattr fids,
+    rename/unlink of referenced entries, disconnect); [led [] []]: the ledger of transient references
+    is left as found (more only if a panic was flagged) *)
+Theorem C05_inv_step : forall B bstep o s d,
+  RefInvD B s d -> RefInvD B (snd (step B bstep o s)) d /\ led B [] [] s (snd (step B bstep o s)).
+Proof. intros B bstep o s d H. apply (step_ok B bstep o s d H). intros x []. Qed.
+Print Assumptions C05_inv_step.
 
-Theorem C05_inv_lookup : forall B s d r, RefInvD B s d -> 0 < C B s r -> RefInvD B (hold B r s) d.
-Proof. exact hold_inv. Qed.
-Print Assumptions C05_inv_lookup.
+(** The DecRef cascade pays exactly one owed reference [r] and never runs out of fuel: each
+    continuing step turns a live fidRef into a dead one, so #live + 1 steps suffice - no acyclicity
+    of the parent links is needed for termination (the model's fuel is #fidRefs + 2). *)
+Theorem C05_cascade : forall B bstep fuel r s d,
+  RefInvD B s (r :: d) -> live_count B s < fuel ->
+  let s' := snd (decref B bstep fuel r s) in
+  RefInvD B s' d /\ live_count B s' <= live_count B s /\ s_oof B s' = s_oof B s /\ keeps B s s'.
+Proof. exact decref_inv2. Qed.
+Print Assumptions C05_cascade.
 
-Theorem C05_inv_deferred_decref : forall B bstep s d r,
-  RefInvD B s d -> In r (s_held B s) -> s_oof B (release B bstep r s) = false -> RefInvD B (release B bstep r s) d.
-Proof. exact release_inv. Qed.
-Print Assumptions C05_inv_deferred_decref.
-
-(** InsertFID, also over a bound fid (the replaced fidRef is dropped, possibly closed) *)
-Theorem C05_inv_insert_fid : forall B bstep s d c fid r,
-  RefInvD B s d -> 0 < C B s r -> s_oof B (insert_fid B bstep c fid r s) = false ->
-  RefInvD B (insert_fid B bstep c fid r s) d.
-Proof. exact insert_fid_inv. Qed.
-Print Assumptions C05_inv_insert_fid.
-
-Theorem C05_inv_delete_fid : forall B bstep s d c fid,
-  RefInvD B s d -> s_oof B (snd (delete_fid B bstep c fid s)) = false -> RefInvD B (snd (delete_fid B bstep c fid s)) d.
-Proof. exact delete_fid_inv. Qed.
-Print Assumptions C05_inv_delete_fid.
-
-Theorem C05_inv_new_ref : forall B s d x,
-  RefInvD B s d ->
-  (forall p, fr_parent x = Some p -> 0 < C B s p /\ fr_xattrOf x = None) ->
-  (forall o, fr_xattrOf x = Some o -> 0 < C B s o) ->
-  RefInvD B (snd (new_ref_inc B x s)) d.
-Proof. exact new_ref_inc_inv. Qed.
-Print Assumptions C05_inv_new_ref.
-
-Theorem C05_inv_walk_handover : forall B s d wr x,
-  RefInvD B s d -> In wr (s_held B s) -> fr_parent x = Some wr -> fr_xattrOf x = None ->
-  RefInvD B (snd (new_ref_handover B wr x s)) d.
-Proof. exact new_ref_handover_inv. Qed.
-Print Assumptions C05_inv_walk_handover.
-
-Theorem C05_inv_reparent : forall B s d r p tgt,
-  RefInvD B s d -> 0 < C B s r -> fr_parent (get_ref B s r) = Some p -> 0 < C B s tgt ->
-  RefInvD B (incref B tgt (set_ref B r (fr_with_parent (get_ref B s r) (Some tgt)) s)) (p :: d).
-Proof. exact reparent_inv. Qed.
-Print Assumptions C05_inv_reparent.
-
-(** PARTIAL: C05_inv for whole requests, 11 of the 20 request kinds (see header for what is missing) *)
-Theorem C05_inv_partial : forall B bstep o s,
-  match o with
-  | OGetAttr _ _ | OUse _ _ _ | OSetAttr _ _ | OMk _ _ _ _ | OReadlink _ _
-  | OIO _ _ _ | OReaddir _ _ | OOpen _ _ _ | OXattrCreate _ _ | OClunk _ _ | OStop _ => True
-  | _ => False
-  end ->
-  RefInv B s -> s_oof B (snd (step B bstep o s)) = false -> RefInv B (snd (step B bstep o s)).
-Proof. exact bracket_ops_inv. Qed.
-Print Assumptions C05_inv_partial.
+Theorem C05_fuel_suffices : forall B s, live_count B s < fuel_of B s.
+Proof. exact fuel_enough. Qed.
+Print Assumptions C05_fuel_suffices.
 
 (** PARTIAL: C05_error_paths for one walk component (walkOne, all of its error paths, both walk
     flavours, wrong QID count): a failing walkOne leaves no File behind - either no handle was
